@@ -16,6 +16,7 @@ import (
 	"path"
 	"path/filepath"
 	"strings"
+	"sync"
 	"time"
 
 	"github.com/folbricht/desync"
@@ -440,6 +441,82 @@ func run(c *harness.Ctx, i int) {
 		if r == 0 {
 			c.Sample(map[string]interface{}{"server": server, "via": via, "method": method, "target": pc.target[:min(len(pc.target), 100)], "auth": ac.class, "config": cfg, "status": resp.status, "sandbox_changes": len(diffs)})
 		}
+	}
+	// upload storm on a verifying writable chunk server: uploads cut short mid-body (the announced length never arrives),
+	// then many valid uploads of distinct chunks at the same time. Whatever the server stored must hash to its name.
+	if server == "chunk" && writable && verifyWrite && !polluted {
+		right := []string{"Authorization: " + secret}
+		type up struct {
+			id   desync.ChunkID
+			data []byte
+		}
+		var ups []up
+		for k := 0; k < 24; k++ {
+			b := make([]byte, 200+rng.Intn(60000))
+			rng.Read(b)
+			ups = append(ups, up{dsu.Sum(b), b})
+		}
+		target := func(id desync.ChunkID) string { s := id.String(); return "/" + s[:4] + "/" + s + ext }
+		aborted := 0
+		abort := func(u up) {
+			conn, err := net.DialTimeout("tcp", addr, 5*time.Second)
+			if err != nil {
+				return
+			}
+			body := form(u.data)
+			fmt.Fprintf(conn, "PUT %s HTTP/1.1\r\nHost: %s\r\n%s\r\nContent-Length: %d\r\n\r\n", target(u.id), addr, right[0], len(body)+1000)
+			conn.Write(body[:len(body)/2])
+			conn.Close()
+			aborted++
+		}
+		for k := 0; k < 1+rng.Intn(4); k++ {
+			abort(ups[rng.Intn(len(ups))])
+		}
+		time.Sleep(5 * time.Millisecond)
+		var wg sync.WaitGroup
+		statuses := make([]int, len(ups))
+		for g := 0; g < 8; g++ {
+			wg.Add(1)
+			go func(g int) {
+				defer wg.Done()
+				for k := g; k < len(ups); k += 8 {
+					statuses[k] = rawRequest(addr, "PUT", target(ups[k].id), right, form(ups[k].data)).status
+					if k%5 == 0 {
+						abort2 := ups[(k+1)%len(ups)]
+						if conn, err := net.DialTimeout("tcp", addr, 5*time.Second); err == nil {
+							body := form(abort2.data)
+							fmt.Fprintf(conn, "PUT %s HTTP/1.1\r\nHost: %s\r\n%s\r\nContent-Length: %d\r\n\r\n", target(abort2.id), addr, right[0], len(body)+1000)
+							conn.Write(body[:len(body)/3])
+							conn.Close()
+						}
+					}
+				}
+			}(g)
+		}
+		wg.Wait()
+		accepted := 0
+		for k, u := range ups {
+			s := u.id.String()
+			raw, err := os.ReadFile(filepath.Join(served, s[:4], s+ext))
+			if err != nil {
+				if statuses[k] == 200 {
+					c.Violation("upload-lost", "a valid upload of %s was answered 200 but the store holds no such object", s[:10])
+					return
+				}
+				continue
+			}
+			data := raw
+			if !uncompressed {
+				data, err = zdec.DecodeAll(raw, nil)
+			}
+			if err != nil || dsu.Sum(data) != u.id {
+				c.Violation("invalid-chunk-stored", "after %d uploads cut short mid-body and 24 concurrent valid uploads to a verifying server (uncompressed=%v, via %s) the store holds %d bytes under %s that do not hash to that ID (status of its upload: %d)", aborted, uncompressed, via, len(raw), s[:10], statuses[k])
+				return
+			}
+			accepted++
+		}
+		c.Count("storm_uploads_checked", int64(accepted))
+		c.NonTrivial("upload-storm|%s|u%v", via, uncompressed)
 	}
 	_ = rand.Int
 }
